@@ -19,6 +19,34 @@ STD_ENUMS = {
 }
 
 BRANCH = "core::ops::try_trait::Try>::branch"
+
+# Appendix A library model: adapter -> (how the result's top-level variant relates to the input's,
+# the input variant on which the closure argument runs). Variant indices: Option None=0 Some=1,
+# Result Ok=0 Err=1, Poll Ready=0 Pending=1.
+ADAPTERS = {
+    "core::result::Result::map_err": ("same", 1),
+    "core::result::Result::map": ("same", 0),
+    "core::result::Result::or_else": (None, 1),
+    "core::result::Result::and_then": (None, 0),
+    "core::result::Result::unwrap_or_else": (None, 1),
+    "core::option::Option::map": ("same", 1),
+    "core::option::Option::and_then": (None, 1),
+    "core::option::Option::ok_or_else": ("opt2res", 0),
+    "core::option::Option::ok_or": ("opt2res", None),
+    "core::option::Option::unwrap_or_else": (None, 0),
+    "core::option::Option::filter": (None, 1),
+    "core::task::poll::Poll::map_err": ("same", "ready"),
+    "core::task::poll::Poll::map_ok": ("same", "ready"),
+    "core::task::poll::Poll::map": ("same", 0),
+    "core::result::Result::ok": ("res2opt", None),
+    "core::result::Result::err": ("res2opt_err", None),
+}
+_REL = {
+    "same": lambda s: s,
+    "opt2res": lambda s: {1 - x for x in s},        # Some(1)->Ok(0), None(0)->Err(1)
+    "res2opt": lambda s: {1 - x for x in s},        # Ok(0)->Some(1), Err(1)->None(0)
+    "res2opt_err": lambda s: set(s),                # Ok(0)->None(0), Err(1)->Some(1)
+}
 FROM_RESIDUAL = ">::from_residual"
 
 
@@ -71,6 +99,29 @@ def short(key):
     return k.rsplit("::", 1)[-1]
 
 
+def head_call(v):
+    """(callee key, projection names) of the call a tested value was derived from, looking
+    through discr / field projections / `?` payloads; (None, ()) if it is not call-rooted."""
+    names = ()
+    while True:
+        k = v[0]
+        if k == "discr":
+            v = v[1]
+        elif k == "proj":
+            names = tuple(v[2]) + names
+            v = v[1]
+        elif k == "okval":
+            names = ("?",) + names
+            v = v[1]
+        elif k in ("residual", "errconv"):
+            names = ("?err",) + names
+            v = v[1]
+        elif k == "call":
+            return v[1], names
+        else:
+            return None, names
+
+
 def subvalues(v):
     yield v
     k = v[0]
@@ -107,6 +158,18 @@ class Path:
         """Branch decisions on this path whose tested value mentions substr."""
         return [t for t in self.tests if substr in t[1] and (label is None or t[2] == label)]
 
+    def variant_tests(self, *callee_suffixes):
+        """[(projection names, edge label, test)] of the enum tests on values returned by a call
+        to one of the callees (matched by key suffix)."""
+        out = []
+        for t in self.tests:
+            if t[3][0] != "discr":
+                continue
+            ck, names = head_call(t[3])
+            if ck and any(ck == s or ck.endswith(s) for s in callee_suffixes):
+                out.append((names, t[2], t))
+        return out
+
     def calls(self, *names):
         out = []
         for e in self.events:
@@ -128,6 +191,34 @@ class Path:
 
     def closures(self):
         return [e[2] for e in self.events if e[0] == "closure"]
+
+    def adapter_closures(self):
+        """(closure key, 'yes'|'no'|'maybe', bb) for closures handed to Appendix A adapters on this path:
+        whether the closure ran is read off the variant the path later established for the input."""
+        out = []
+        for e in self.events:
+            if e[0] != "call":
+                continue
+            t, argv = e[2], e[3]
+            ck = flow.into_to_from(t)
+            if ck not in ADAPTERS:
+                continue
+            cl = [a for a in argv[1:] if a[0] == "closure"]
+            if not cl:
+                continue
+            trig = ADAPTERS[ck][1]
+            status = "maybe"
+            known = self.cons.get(vfmt(argv[0]))
+            if isinstance(known, frozenset) and trig is not None:
+                if trig == "ready":
+                    status = "no" if known == frozenset({1}) else "maybe"
+                elif known == frozenset({trig}):
+                    status = "yes"
+                elif trig not in known:
+                    status = "no"
+            for c in cl:
+                out.append((c[1], status, e[1]))
+        return out
 
     def stores(self):
         return [e for e in self.events if e[0] == "store"]
@@ -326,6 +417,10 @@ class Explorer:
         key = vfmt(v)
         if key in cons and isinstance(cons[key], (set, frozenset)):
             return set(cons[key])
+        if v[0] == "call" and v[1] in ADAPTERS and ADAPTERS[v[1]][0] and v[2]:
+            inner = self.known_variant(v[2][0], cons)
+            if inner is not None:
+                return _REL[ADAPTERS[v[1]][0]](inner)
         if v[0] == "call" and v[1].endswith(BRANCH):
             inner = self.known_variant(v[2][0], cons)
             if inner is not None and len(inner) == 1:
@@ -357,6 +452,11 @@ class Explorer:
         c = cons.get(key)
         if isinstance(c, bool):
             return c
+        if v[0] == "binop":
+            from . import expr
+            x = expr.fold(v, self.prog.consts)
+            if x is not None:
+                return bool(x)
         return None
 
     def assume_bool(self, v, val, cons):
@@ -366,10 +466,28 @@ class Explorer:
             n = short(v[1])
             tests = {"is_some": 1, "is_none": 0, "is_ok": 0, "is_err": 1, "is_ready": 0, "is_pending": 1}
             if n in tests and v[1].startswith("core::"):
-                key = vfmt(v[2][0])
                 want = tests[n] if val else 1 - tests[n]
-                cons[key] = frozenset({want})
+                self.assume_variant(v[2][0], {want}, cons)
         cons[vfmt(v)] = val
+
+    def assume_variant(self, v, allowed, cons):
+        """Record that enum value v has one of the discriminants in `allowed`, and what that
+        implies for the value it was derived from (`?` and the Appendix A adapters)."""
+        allowed = frozenset(allowed)
+        cons[vfmt(v)] = allowed
+        if v[0] != "call" or not v[2]:
+            return
+        if v[1].endswith(BRANCH) and len(allowed) == 1:
+            a = next(iter(allowed))
+            if "core::option::Option" in v[1]:
+                self.assume_variant(v[2][0], {1} if a == 0 else {0}, cons)
+            elif "core::result::Result" in v[1]:
+                self.assume_variant(v[2][0], {a}, cons)
+        elif v[1] in ADAPTERS and ADAPTERS[v[1]][0]:
+            rel = ADAPTERS[v[1]][0]
+            inv = {"same": lambda s: s, "opt2res": lambda s: {1 - x for x in s},
+                   "res2opt": lambda s: {1 - x for x in s}, "res2opt_err": lambda s: set(s)}[rel]
+            self.assume_variant(v[2][0], inv(set(allowed)), cons)
 
     def invalidate(self, cons, root_desc):
         """Drop constraints about values rooted at root_desc (e.g. 'param_1')."""
@@ -531,23 +649,24 @@ class Explorer:
                     p.end = "infeasible"
                     return
                 vtxt = vfmt(v)
+                expl = tuple(x for x, _ in t.targets)
                 if len(succs) == 1:
                     lab, tb, upd = succs[0]
                     upd(p.cons)
                     p.labels.append(lab)
-                    p.tests.append((bb, vtxt, lab, v))
+                    p.tests.append((bb, vtxt, lab, v, expl))
                     bb = tb
                     continue
                 for lab, tb, upd in succs[1:]:
                     q = self._fork(p)
                     upd(q.cons)
                     q.labels.append(lab)
-                    q.tests.append((bb, vtxt, lab, v))
+                    q.tests.append((bb, vtxt, lab, v, expl))
                     self._walk(tb, q, visits, out)
                 lab, tb, upd = succs[0]
                 upd(p.cons)
                 p.labels.append(lab)
-                p.tests.append((bb, vtxt, lab, v))
+                p.tests.append((bb, vtxt, lab, v, expl))
                 bb = tb
                 continue
             raise RuntimeError("unknown terminator " + k)
@@ -587,7 +706,7 @@ class Explorer:
                 sval = val if val < (1 << 127) else val - (1 << 128)
                 if allowed is not None and sval not in allowed and val not in allowed:
                     continue
-                out.append((self._vname(adt, sval), tb, (lambda c, key=key, sval=sval: c.__setitem__(key, frozenset({sval})))))
+                out.append((self._vname(adt, sval), tb, (lambda c, pv=pv, sval=sval: self.assume_variant(pv, {sval}, c))))
             # otherwise edge
             if allowed is not None:
                 rest = {a for a in allowed if a not in explicit}
@@ -600,7 +719,7 @@ class Explorer:
                 out.append(("otherwise", tb, lambda c: None))
             elif rest and body.blocks[tb].term.t != "unreachable":
                 out.append(("|".join(self._vname(adt, r) for r in sorted(rest)), tb,
-                            (lambda c, key=key, rest=frozenset(rest): c.__setitem__(key, rest))))
+                            (lambda c, pv=pv, rest=frozenset(rest): self.assume_variant(pv, rest, c))))
             return out
         # boolean / integer switch on a computed value
         bval = self.bool_value(v, cons)
@@ -672,9 +791,33 @@ def body_codes(prog, body, depth=2, _seen=None, prefix="h3::error::codes::Code::
 
 
 def path_codes(prog, path, depth=1):
-    """Codes named on the path itself plus those of closures built on it."""
+    """Codes named on the path itself plus those of closures that ran (or may have run) on it."""
     out = set(path.codes())
+    seen = set()
+    for ck, status, _ in path.adapter_closures():
+        seen.add(ck)
+        if status != "no":
+            for c in prog.by_key.get(ck, []):
+                out |= body_codes(prog, c, depth)
     for ck in path.closures():
+        if ck not in seen:
+            for c in prog.by_key.get(ck, []):
+                out |= body_codes(prog, c, depth)
+    return out
+
+
+def closure_calls(prog, path, *names):
+    """Calls (closure key, term) made inside closures that ran / may have run on this path."""
+    out = []
+    done = set()
+    todo = [ck for ck, st, _ in path.adapter_closures() if st != "no"]
+    adapters = {ck for ck, _, _ in path.adapter_closures()}
+    todo += [ck for ck in path.closures() if ck not in adapters]
+    for ck in todo:
+        if ck in done:
+            continue
+        done.add(ck)
         for c in prog.by_key.get(ck, []):
-            out |= body_codes(prog, c, depth)
+            for bb, t in c.calls(*names):
+                out.append((ck, t))
     return out
